@@ -389,9 +389,153 @@ impl Space for Histories {
     }
 }
 
+/// A TZif version-2 file written by the harness: `types` (utoff, isdst), `trans` (time, type), footer.
+pub fn write_tzif(types: &[(i32, bool)], trans: &[(i64, u8)], footer: &str) -> Vec<u8> {
+    fn header(out: &mut Vec<u8>, timecnt: u32, typecnt: u32, charcnt: u32) {
+        out.extend_from_slice(b"TZif2");
+        out.extend_from_slice(&[0u8; 15]);
+        for v in [0u32, 0, 0, timecnt, typecnt, charcnt] {
+            out.extend_from_slice(&v.to_be_bytes());
+        }
+    }
+    let mut out = vec![];
+    // version-1 block: no transitions, one type, designation "UTC\0"
+    header(&mut out, 0, 1, 4);
+    out.extend_from_slice(&0i32.to_be_bytes());
+    out.extend_from_slice(&[0, 0]);
+    out.extend_from_slice(b"UTC\0");
+    // version-2 block
+    let chars: Vec<u8> = (0..types.len()).flat_map(|k| vec![b'A' + k as u8, b'A' + k as u8, b'A' + k as u8, 0]).collect();
+    header(&mut out, trans.len() as u32, types.len() as u32, chars.len() as u32);
+    for (t, _) in trans {
+        out.extend_from_slice(&t.to_be_bytes());
+    }
+    for (_, ty) in trans {
+        out.push(*ty);
+    }
+    for (k, (off, dst)) in types.iter().enumerate() {
+        out.extend_from_slice(&off.to_be_bytes());
+        out.push(*dst as u8);
+        out.push((4 * k) as u8);
+    }
+    out.extend_from_slice(&chars);
+    out.push(b'\n');
+    out.extend_from_slice(footer.as_bytes());
+    out.push(b'\n');
+    out
+}
+
+/// Files the installed zoneinfo does not contain: every Mm.w.d rule date, the Jn and n forms, negative and
+/// beyond-24h transition times, negative daylight saving, fractional-hour offsets, with and without a table.
+struct SyntheticFiles {
+    footers: Vec<String>,
+}
+impl SyntheticFiles {
+    fn new() -> Self {
+        let mut footers: Vec<String> = ["AAA5BBB,M3.2.0,M11.1.0", "AAA-1BBB,M3.5.0,M10.5.0/3", "<+1030>-10:30<+11>-11,M10.1.0,M4.1.0", "AAA-1BBB0,M10.5.0,M3.5.0/1", "<-03>3<-02>,M3.5.0/-2,M10.5.0/-1", "AAA-2BBB,M3.4.4/26,M10.5.0", "AAA-3BBB,J60/2,J300/3", "AAA-3BBB,J59/2,J365/23", "AAA3BBB,59/2,300", "AAA3BBB,58/2,364/1", "AAA-3BBB-5,M1.1.0/0,M12.5.6/24", "AAA0", "<+0545>-5:45", "AAA-12BBB,M2.5.3/2:30,M8.1.1/0:15", "AAA11BBB,M9.5.0/2,M4.1.0/3", "AAA-3:30BBB-4:30,J1/0,J365/24"].iter().map(|s| s.to_string()).collect();
+        for m in 1..=12u8 {
+            for w in 1..=5u8 {
+                for d in 0..=6u8 {
+                    footers.push(format!("AAA5BBB,M{m}.{w}.{d}/2,M{}.2.0/2", (m + 5) % 12 + 1));
+                }
+            }
+        }
+        SyntheticFiles { footers }
+    }
+}
+impl Space for SyntheticFiles {
+    fn name(&self) -> String {
+        "c15.synthetic_files".into()
+    }
+    fn len(&self) -> u64 {
+        self.footers.len() as u64 * 2
+    }
+    fn block(&self) -> u64 {
+        4
+    }
+    fn eval(&self, i: u64, out: &mut Out) {
+        let footer = &self.footers[(i / 2) as usize];
+        let with_table = i % 2 == 1;
+        let Ok(rule) = r7::parse_posix(footer) else {
+            out.note(|| format!("reference cannot parse footer {footer}"));
+            out.unjudged += 1;
+            return;
+        };
+        let mut types: Vec<(i32, bool)> = vec![(rule.std_off as i32, false)];
+        if let Some(d) = &rule.dst {
+            types.push((d.0 as i32, true));
+        }
+        let mut trans: Vec<(i64, u8)> = vec![];
+        if with_table {
+            // a local-mean-time-like first type and one listed transition to standard time in 1990
+            types.insert(0, (rule.std_off as i32 + 1_234, false));
+            trans.push((631_152_000, 1));
+        }
+        let bytes = write_tzif(&types, &trans, footer);
+        let attrs0 = || vec![("footer", footer.clone()), ("table", with_table.to_string())];
+        let file = match r7::parse_tzif(&bytes) {
+            Ok(f) => f,
+            Err(e) => {
+                out.note(|| format!("reference cannot read its own file: {e}"));
+                out.unjudged += 1;
+                return;
+            }
+        };
+        let years: Vec<i64> = vec![1991, 1992, 2000, 2037, 2038, 2039, 2040, 2041, 2042, 2043, 2044, 2096, 2100, 2104, 2399, 2400];
+        let Ok(zone) = r7::build_zone(&file, &years) else {
+            out.unjudged += 1;
+            return;
+        };
+        let tz = match call(|| temporal_rs::tzdb::Tzif::from_bytes(&bytes)) {
+            Oc::Ok(t) => t,
+            _ => {
+                // the external tzif crate refuses the file (not the repository's reading of it)
+                out.unjudged += 1;
+                out.count("files_refused_by_the_tzif_parser", 1);
+                return;
+            }
+        };
+        out.nontrivial += 1;
+        let covered = |t_ns: i128| {
+            let y = civil_from_days(((t_ns / NS) as i64).div_euclid(86_400)).0;
+            rule.dst.is_none() || years.contains(&y) && years.contains(&(y + 1)) || !with_table && false || (with_table && (t_ns / NS) as i64 <= 631_152_000)
+        };
+        for (k, (t, off_after)) in zone.trans.iter().enumerate() {
+            let off_before = if k == 0 { zone.initial } else { zone.trans[k - 1].1 };
+            for probe in [*t - NS, *t, *t + NS, *t + 40 * NS_PER_DAY] {
+                if !covered(probe) {
+                    continue;
+                }
+                let ts = (probe / NS) as i64;
+                let got = call(|| tz.get(&tzif::data::time::Seconds(ts)).map(|o| o.offset));
+                out.lockstep("Tzif::get (synthetic file)", &Ok(zone.offset_at(probe)), &got, |a, b| a == b, || { let mut a = attrs0(); a.push(("epoch_seconds", ts.to_string())); a });
+            }
+            let (lo, hi) = { let a = t + off_before as i128 * NS; let b = t + *off_after as i128 * NS; (a.min(b), a.max(b)) };
+            for l in [lo - NS, lo, (lo + hi) / 2 / NS * NS, hi - NS, hi] {
+                let want: BTreeSet<i128> = zone.candidates(l).into_iter().collect();
+                if !covered(l) || want.iter().any(|c| !covered(*c)) {
+                    continue;
+                }
+                let ls = (l / NS) as i64;
+                let got = call(|| {
+                    tz.v2_estimate_tz_pair(&tzif::data::time::Seconds(ls)).map(|r| match r {
+                        temporal_rs::tzdb::LocalTimeRecordResult::Empty => BTreeSet::new(),
+                        temporal_rs::tzdb::LocalTimeRecordResult::Single(r) => BTreeSet::from([(ls - r.offset) as i128 * NS]),
+                        temporal_rs::tzdb::LocalTimeRecordResult::Ambiguous { std, dst } => BTreeSet::from([(ls - std.offset) as i128 * NS, (ls - dst.offset) as i128 * NS]),
+                    })
+                });
+                out.lockstep("Tzif::v2_estimate_tz_pair (synthetic file)", &Ok(want), &got, |a, b| a == b, || { let mut a = attrs0(); a.push(("local_seconds", ls.to_string())); a.push(("kind", if *off_after > off_before { "gap" } else { "overlap" }.to_string())); a });
+            }
+        }
+    }
+    fn describe(&self) -> serde_json::Value {
+        json!({"footers": self.footers.len(), "variants": ["footer only", "one listed transition in 1990"], "rule_years": [1991, 1992, 2000, "2037-2044", 2096, 2100, 2104, 2399, 2400]})
+    }
+}
+
 pub fn spaces(env: &Env) -> Vec<Box<dyn Space>> {
     let names = zone_names();
-    vec![Box::new(ZoneSweep { names: names.clone(), tier: env.tier }), Box::new(Identifiers { names }), Box::new(Histories { depth: env.tier.pick(3, 4), fresh: (0..13).map(|q| query(&FsTzdbProvider::default(), q)).collect() })]
+    vec![Box::new(ZoneSweep { names: names.clone(), tier: env.tier }), Box::new(SyntheticFiles::new()), Box::new(Identifiers { names }), Box::new(Histories { depth: env.tier.pick(3, 4), fresh: (0..13).map(|q| query(&FsTzdbProvider::default(), q)).collect() })]
 }
 
 pub fn run(env: &Env) -> i32 {
